@@ -1045,7 +1045,18 @@ func ruleErrPropagate(w *World, r *Report, pkg *ssa.Package, tag string, exempt 
 			}
 			if sf := staticCallee(call); sf == nil || fnPkg(sf) != pkg.Pkg {
 				if !(call.Call.IsInvoke() && call.Call.Method.Pkg() == pkg.Pkg) {
-					continue
+					// an external callee's error counts when this very function passes it on as
+					// its own failure somewhere (`return nil, err`): then it means "give up" here
+					// too, not a classification (Atoi failing = "a key, not an index" is never returned)
+					passedOn := false
+					for _, ret := range returnsOf(fn) {
+						if len(ret.Results) > 0 && ret.Results[len(ret.Results)-1] == ev {
+							passedOn = true
+						}
+					}
+					if !passedOn {
+						continue
+					}
 				}
 			}
 			fail := tE
@@ -1058,6 +1069,27 @@ func ruleErrPropagate(w *World, r *Report, pkg *ssa.Package, tag string, exempt 
 			if why, ok := exempt[key]; ok {
 				r.Ok(rule, key, w.Pos(bo.Pos()), "exempt by name: "+why)
 				continue
+			}
+			// the other polarity of the same slip: a failure-shaped return (`return nil, err`) on the
+			// edge on which err is known to be nil reports success with the zero value
+			okSide := fE
+			if bo.Op == token.EQL {
+				okSide = tE
+			}
+			for _, ret := range returnsOf(fn) {
+				if len(ret.Results) < 2 || ret.Results[len(ret.Results)-1] != ev {
+					continue
+				}
+				zero := true
+				for _, res := range ret.Results[:len(ret.Results)-1] {
+					if c, isC := res.(*ssa.Const); !isC || !(c.IsNil() || c.Value == nil) {
+						zero = false
+					}
+				}
+				if zero && (okSide.To() == ret.Block() && len(ret.Block().Preds) == 1 || edgeDominates(okSide, ret.Block())) {
+					r.Bad(rule, key+":nil-error-returned-as-failure", w.Pos(ret.Pos()),
+						"the error value is passed on with zero results on the edge on which it is known to be nil: the function reports success with a nil result exactly when the call succeeded (inverted error test)")
+				}
 			}
 			r.Check(ea.errorOnly(fail.To()), rule, key, w.Pos(bo.Pos()),
 				"once the call has reported an error every path ends in an error return",
@@ -1170,4 +1202,77 @@ func recordSlice(fs *Facts, x *ssa.Slice, b *ssa.BasicBlock) (string, bool) {
 		return fmt.Sprintf("S13: record %d-wide number i of a buffer made with len(y)*%d, with 0 <= i < len(y)", k, k), true
 	}
 	return "", false
+}
+
+// ruleExplicitPanics — R-PANICERR. An explicit `panic(err)` with the error
+// result of a call is the package's way of saying "cannot happen" (the codecs'
+// Marshal on values built by this package). It may only sit on the edge on
+// which that error is known to be non-nil; on any other edge it fires on the
+// ordinary, successful path (an inverted test makes every rendering panic).
+func ruleExplicitPanics(w *World, r *Report, pkg *ssa.Package, tag string) {
+	const rule = "R-PANICERR"
+	n := 0
+	for _, fn := range w.FuncsOf(pkg) {
+		withClosures(fn, func(g *ssa.Function) {
+			k := 0
+			for _, b := range g.Blocks {
+				for _, in := range b.Instrs {
+					p, ok := in.(*ssa.Panic)
+					if !ok {
+						continue
+					}
+					v := p.X
+					if mi, ok := v.(*ssa.MakeInterface); ok {
+						v = mi.X
+					}
+					if ci, ok := v.(*ssa.ChangeInterface); ok {
+						v = ci.X
+					}
+					if !isErrorType(v.Type()) {
+						continue
+					}
+					var call *ssa.Call
+					switch x := v.(type) {
+					case *ssa.Call:
+						call = x
+					case *ssa.Extract:
+						call, _ = x.Tuple.(*ssa.Call)
+					}
+					if call == nil {
+						continue
+					}
+					k++
+					n++
+					behind := false
+					for _, b2 := range g.Blocks {
+						cond, tE, fE, okb := branchEdges(b2)
+						if !okb {
+							continue
+						}
+						bo, okc := cond.(*ssa.BinOp)
+						if !okc || (bo.Op != token.NEQ && bo.Op != token.EQL) {
+							continue
+						}
+						if !((bo.X == v && isNilConst(bo.Y)) || (bo.Y == v && isNilConst(bo.X))) {
+							continue
+						}
+						fail := tE
+						if bo.Op == token.EQL {
+							fail = fE
+						}
+						if fail.To() == b && len(b.Preds) == 1 || edgeDominates(fail, b) {
+							behind = true
+						}
+					}
+					r.Fn(fnName(g))
+					r.Check(behind, rule, fmt.Sprintf("%s:panic-on-error#%d", fnName(g), k), w.Pos(p.Pos()),
+						"panic(err) sits on the edge on which the call's error is known to be non-nil",
+						"panic(err) is reachable where the call's error is not known to be non-nil (inverted or missing test): the function panics on the successful path")
+				}
+			}
+		})
+	}
+	if n == 0 {
+		r.Ok(rule, tag+":no-panic-on-error", "-", "no explicit panic(err) in the package")
+	}
 }
